@@ -613,3 +613,55 @@ _add("C20", "compatible retypings are reported (compatibleRetypeSeverity re-extr
             "schemas against the schema built from their own SDL; defaults enter the model as GraphQL values of their position (gql_canon_default, independent "
             "of the library's printer).",
      "Known findings G1, G4 (pinned). Repaired: G2, G3, G5, Python-equal defaults, subclass kinds, hash-dependent order, defaults as GraphQL values.")
+
+
+# ---------------------------------------------------------------------------------------------------------------
+# State after the first builder wave (lexer / parser / spans): narrative of C01 and C02 brought up to the tree.
+# ---------------------------------------------------------------------------------------------------------------
+CHECKS["C01"].update({
+    "text": ("MODELLED: Lex.lean (Lexer.__next__ and every _read_*, positions and error positions included; tables RE-EXTRACTED from lexer.py on every "
+             "run), Parse.lean / ParseExec / ParseTS / ParseDoc (every parse_* of lang/parser.py, many / any_ / delimited_list, the three flags, the "
+             "three entry points; keyword and location tables re-extracted from parser.py), ParseText.lean (Parser.__init__ + entry point = lexer then "
+             "parser, with the error of either), StringUtils.lean (index_to_loc, highlight_location). SPECIFICATION: Spec/Lexical.lean (June-2018 lexical "
+             "grammar as recognisers of complete lexemes + the tiling relation Tiles / IgnRun / Follow) and Spec/Grammar.lean (concrete-syntax views, WF, "
+             "Matches). PROVED, lexer: lex_sound and lex_render (= lexAll_ok_iff: a text is accepted exactly when it is tiled by ignored runs and complete "
+             "lexemes obeying maximal munch, and the tokens returned are the tiling's; ALL token kinds), lex_ignored_invariant, lex_fuel_sufficient, "
+             "render_total / index_to_loc_total_iff, the table-to-spec theorems. Parser: parse_sound_document, parse_complete_document, "
+             "parseDocument_accepts_iff, matched_document_unique (all 8 flag combinations; parseValue_* / parseType_* for the other two entry points). "
+             "TEXT level: parse_text_accepts_iff / parse_text_result, parse_value_text_result, parse_type_text_result (text accepted <=> tiled text whose "
+             "tokens derive from the grammar; the tree returned is the derivation). ERROR CLAUSE: parse_error_in_range, "
+             "parse_text_error_in_range_partial, parse_text_render_total, and a description of the one excluded class (L6): "
+             "error_in_range_or_truncated_escape / error_in_range_except_truncated_escape (a position beyond the end only for texts whose last characters "
+             "are a truncated escape; EndsInEscape over-approximates the class); refuted with witnesses: error_in_range_refuted (`\"\\`), viable_prefix_refuted (`extend scalar A`). "
+             "SPEC-EDITION READINGS isolated as named clauses of the lexical spec, each with a pinned theorem and a refutation of the literal June-2018 "
+             "reading: number look-ahead (LA1: number_lookahead_pinned / june2018_glued_number_refuted); greedy optional blocks (LA2) are the `nla` item of Spec/Grammar. CORRESPONDENCE: text -> tokens -> AST (whole "
+             "to_dict() incl. loc) for str and UTF-8 bytes on grammar-directed documents rendered with random ignored runs, token / character mutants, "
+             "every prefix, the repo fixtures, CR/LF/CRLF variants, bounded-exhaustive token strings x 8 flag combinations x 3 entry points; DIRECT ORACLES: "
+             "error contract (only GraphQLSyntaxError, 0 <= position <= len, str()/highlighted/to_dict() succeed), spec recognisers on single lexemes, "
+             "ignored-run invariance, bytes = str, named probes for LA1, LA2 and deep nesting."),
+    "note": ("Trusted: Lean kernel; table extraction; generators; the Python canonicaliser of Node.to_dict(). Only exercised (not modelled): UTF-8 decoding "
+             "of bytes sources (ensure_unicode, fix B8), the exception classes and messages, CPython's recursion limit (named probe, finding P1). Error "
+             "positions of rejected texts are proved in range but not compared one by one. Residuals: L6 (len+1, pinned by test_lexer.py; rendering "
+             "repaired), LA1, LA2 (readings of the June-2018 grammar pinned by the suite / needing backtracking; graphql-js agrees), P1."),
+    "technique": "Lean 4 proof (lexer soundness+completeness, grammar acceptance iff at text level, exact error-position class, tables) + extracted tables + text/token/AST correspondence",
+})
+CHECKS["C02"].update({
+    "text": ("MODELLED: the C01 lexer / parser model with loc (every node), BlockString.lean (parse_block_string), escape decoding in readStringBody "
+             "(paired surrogate escapes after fix U1). SPECIFICATION: Spec/BlockStringSpec.lean (BlockStringValue() transcribed), Spec/Lexical.lean "
+             "(stringCharacters, escape table), the span clause inside Item.check / Spans (loc = start of first token, end of last token of the node's own "
+             "segment). PROVED: block_string_spec (model = BlockStringValue, all inputs), escape_spec (sound + complete against StringCharacter*), "
+             "number_verbatim; span_spec_document / _value / _type (every node's loc is the span of its own token segment, siblings consecutive, children "
+             "nested; all flags); noloc_erasure, noloc_acceptance (no_location erases positions and nothing else). RE-PARSE AT CHARACTER LEVEL: lex_slice "
+             "(the characters between two tokens lex to the tokens in between, moved down); span_reparse_value / span_reparse_type (parse_value / "
+             "parse_type entry points, every nested node); for DOCUMENTS span_reparse_node (every node of every kind: the spanned text lexes and derives "
+             "exactly the node at offset 0), span_reparse_value_all / span_reparse_type_all (every value / type node of every definition is what "
+             "parse_value / parse_type returns for its text), span_reparse_definition (the text of a definition parses to the one-definition document); "
+             "selection sets, fields, arguments, directives and descriptions have no entry point of their own and are covered by span_reparse_node at "
+             "grammar level. CORRESPONDENCE: decoded values and every node's loc "
+             "(through the C01 driver), parse_block_string directly; DIRECT ORACLE: source[loc] re-parses to an equal node with the Parser method that "
+             "produced it (incl. trailing children), block / quoted lexemes decode to the spec value, numbers and names verbatim, node.source slices."),
+    "note": ("Trusted: Lean kernel; generators; the lexer positions feeding the spans are covered by lex_sound (C01). Only exercised: Parser.parse_* "
+             "methods called directly on a slice (the oracle), the `source` attribute. Residual: P5 (the Document span runs from <SOF> to <EOF>, i.e. "
+             "includes surrounding ignored text; pinned by 15 tests; modelled as is). Repaired earlier: B1, B2, L4, P4, U1."),
+    "technique": "Lean 4 proof (block strings, escapes, spans for all documents, no_location erasure, character-level re-parse of every node) + decode/span correspondence + re-parse oracle",
+})
